@@ -4,8 +4,10 @@ cd "$(dirname "$0")/.."
 TIER=${1:-quick}
 IDS=$(python3 -c "import json;print(' '.join(c['property_id'] for c in json.load(open('MANIFEST.json'))['checks']))")
 mkdir -p /tmp/runall
-for id in $IDS; do ( ./check $id --tier $TIER > /tmp/runall/$id.log 2>&1; echo "$id exit=$? $(grep -E '^C[0-9]+:' /tmp/runall/$id.log | tail -1)" ) & done
-wait
+# four checks at a time: each check uses worker pools of its own
+one() { ./check $1 --tier $2 > /tmp/runall/$1.log 2>&1; echo "$1 exit=$? $(grep -E '^C[0-9]+:' /tmp/runall/$1.log | tail -1)"; }
+export -f one
+echo $IDS | tr ' ' '\n' | xargs -P 4 -I{} bash -c "one {} $TIER"
 grep -l "VIOLATION\|CHECKER-ERROR\|DEGRADED" /tmp/runall/*.log 2>/dev/null | sed 's/^/ATTENTION: /'
 .venv/bin/python - <<'PY'
 import json,glob,jsonschema
